@@ -1,4 +1,5 @@
 import PsModel.Lemmas.C03
+import PsModel.Lemmas.C03Scope
 /-!
 # C03 – property theorems (a): argument binding of script functions
 
@@ -175,5 +176,114 @@ theorem C03_trigger_kw_example :
 /-- non-vacuity of the hypotheses on a signature with every parameter kind -/
 example : WF ⟨["p"], ["a", "b"], 1, [("k", true), ("m", false)], true, true⟩ [("b", 1), ("m", 2), ("zz", 3)] := by
   refine ⟨by decide, by decide, by decide⟩
+
+/-! ## (b) where a name mentioned in a nested function lives (`resolve_nonlocals`) -/
+
+/-- **Name resolution agrees with Python** for a function nested at ANY depth, whatever each enclosing function binds,
+declares `global` / `nonlocal` or merely mentions – provided nested `nonlocal` names are handed up (repair cf72865+) and
+either scoping is lexical (repair) or no ENCLOSING function declares the name `global` (finding C03-F4 lived exactly
+there, see `C03_regress_lexical`). -/
+theorem C03_resolve_partial (cfg : ScopeCfg) (s : FnScope) (chain : List FnScope) (x : String)
+    (hn : cfg.nonlocalPropagates = true) (h : cfg.lexicalOnly = true ∨ NoGlobalCut chain x) :
+    PS.resolve cfg s chain x = Py.resolve s chain x := by
+  unfold PS.resolve Py.resolve
+  by_cases hg : x ∈ s.globals
+  · simp [hg]
+  · by_cases hl : s.isLocal x = true
+    · simp [hg, hl]
+    · have hup : PS.handsUp cfg s x true = true := by simp [PS.handsUp, hn, hg, hl]
+      simp only [List.contains_eq_mem, hg, hl, decide_false, Bool.false_eq_true, if_false, hup]
+      exact PS.lookup_eq_free cfg hn x chain 1 h
+
+/-- the code today: no side condition is left -/
+theorem C03_resolve_current (s : FnScope) (chain : List FnScope) (x : String) :
+    PS.resolve Current.scopeCfg s chain x = Py.resolve s chain x :=
+  C03_resolve_partial _ s chain x rfl (Or.inl rfl)
+
+/-- the statement of the property for this part, for any code shape with both repairs -/
+theorem C03_resolve_full (cfg : ScopeCfg) (hl : cfg.lexicalOnly = true) (hn : cfg.nonlocalPropagates = true)
+    (s : FnScope) (chain : List FnScope) (x : String) : PS.resolve cfg s chain x = Py.resolve s chain x :=
+  C03_resolve_partial cfg s chain x hn (Or.inl hl)
+
+/-- former finding C03-F4 as a witness: `def f2(x): def f3(): global x; def f4(): return x` – Python reads the global,
+the search through further tables walked past f3 and found f2's parameter -/
+theorem C03_regress_lexical :
+    let f4 : FnScope := ⟨[], [], [], [], ["x"]⟩
+    let f3 : FnScope := ⟨[], ["f4"], ["x"], [], ["x", "f4"]⟩
+    let f2 : FnScope := ⟨["x"], ["f3"], [], [], ["x", "f3"]⟩
+    PS.resolve { Current.scopeCfg with lexicalOnly := false } f4 [f3, f2] "x" = .cell 2 ∧
+      Py.resolve f4 [f3, f2] "x" = .global ∧ PS.resolve Current.scopeCfg f4 [f3, f2] "x" = .global := by decide
+
+/-- with lexical scoping the hand-up of `nonlocal` names is necessary: `def a(): x = 1; def b(): def c(): nonlocal x; x = 2` -/
+theorem C03_regress_nonlocal_handed_up :
+    let c : FnScope := ⟨[], ["x"], [], ["x"], ["x"]⟩
+    let b : FnScope := ⟨[], ["c"], [], [], ["c"]⟩
+    let a : FnScope := ⟨[], ["x", "b"], [], [], ["x", "b"]⟩
+    PS.resolve { Current.scopeCfg with nonlocalPropagates := false } c [b, a] "x" = .global ∧
+      Py.resolve c [b, a] "x" = .cell 2 ∧ PS.resolve Current.scopeCfg c [b, a] "x" = .cell 2 := by decide
+
+/-- non-vacuity: a three-deep nest where the name is found two levels out, through a level that does not mention it -/
+example :
+    let c : FnScope := ⟨[], [], [], [], ["x", "y"]⟩
+    let b : FnScope := ⟨[], ["y", "c"], [], [], ["y", "c"]⟩
+    let a : FnScope := ⟨[], ["x", "b"], [], [], ["x", "b"]⟩
+    PS.resolve Current.scopeCfg c [b, a] "x" = .cell 2 ∧ PS.resolve Current.scopeCfg c [b, a] "y" = .cell 1 ∧
+      PS.resolve Current.scopeCfg c [b, a] "zz" = .global := by
+  refine ⟨by decide, by decide, by decide⟩
+
+/-! ## (c) which statements make a name local (`get_names_set`, `get_target_names`) -/
+
+mutual
+theorem locals_eq (cfg : BindCfg)
+    (hall : cfg.annAssignBinds = true ∧ cfg.listTargets = true ∧ cfg.compVarNotLocal = true ∧ cfg.importBinds = true) :
+    ∀ s : Stmt, s.Plainish → PS.locals cfg s = Py.locals s
+  | .node k ts body, h => by
+    unfold Stmt.Plainish at h
+    rw [PS.locals, Py.locals, nodeNames_eq cfg hall k ts h.1, localsL_eq cfg hall body h.2]
+theorem localsL_eq (cfg : BindCfg)
+    (hall : cfg.annAssignBinds = true ∧ cfg.listTargets = true ∧ cfg.compVarNotLocal = true ∧ cfg.importBinds = true) :
+    ∀ b : List Stmt, Stmt.PlainishL b → PS.localsL cfg b = Py.localsL b
+  | [], _ => by simp [PS.localsL, Py.localsL]
+  | s :: rest, h => by
+    unfold Stmt.PlainishL at h
+    rw [PS.localsL, Py.localsL, locals_eq cfg hall s h.1, localsL_eq cfg hall rest h.2]
+end
+
+/-- **The local names of a function body are Python's**, for bodies of any size and nesting and targets of any shape,
+once the four repairs are in; outside: `del (a, b)` (a parenthesised del target list). -/
+theorem C03_locals_partial (cfg : BindCfg)
+    (hall : cfg.annAssignBinds = true ∧ cfg.listTargets = true ∧ cfg.compVarNotLocal = true ∧ cfg.importBinds = true)
+    (body : List Stmt) (h : Stmt.PlainishL body) : PS.localsL cfg body = Py.localsL body :=
+  localsL_eq cfg hall body h
+
+/-- the code today is in that fragment -/
+theorem C03_locals_current (body : List Stmt) (h : Stmt.PlainishL body) :
+    PS.localsL Current.bindCfg body = Py.localsL body :=
+  localsL_eq _ ⟨rfl, rfl, rfl, rfl⟩ body h
+
+/-- the pre-fix code shapes are kept as witnesses: each repair was necessary -/
+theorem C03_regress_annassign :
+    PS.localsL { Current.bindCfg with annAssignBinds := false } [.node .ann [.name "v"] []] ≠ Py.localsL [.node .ann [.name "v"] []] := by
+  decide
+theorem C03_regress_list_target :
+    PS.localsL { Current.bindCfg with listTargets := false } [.node .assign [.list [.name "a", .starred (.name "b")]] []]
+      ≠ Py.localsL [.node .assign [.list [.name "a", .starred (.name "b")]] []] := by decide
+theorem C03_regress_comp_var :
+    PS.localsL { Current.bindCfg with compVarNotLocal := false } [.node .compVar [.name "x"] []] ≠ Py.localsL [.node .compVar [.name "x"] []] := by
+  decide
+theorem C03_regress_import :
+    PS.localsL { Current.bindCfg with importBinds := false } [.node .importN [.name "m"] []] ≠ Py.localsL [.node .importN [.name "m"] []] := by
+  decide
+/-- what is left outside the fragment: `del (a, b)` makes a and b local in Python, `get_names_set` looks at plain names only -/
+theorem C03_locals_del_tuple_cex :
+    PS.localsL Current.bindCfg [.node .del [.tuple [.name "a", .name "b"]] []] ≠ Py.localsL [.node .del [.tuple [.name "a", .name "b"]] []] := by
+  decide
+
+/-- non-vacuity: a body using every binding form of the fragment -/
+example : Stmt.PlainishL
+    [.node .forT [.tuple [.name "i", .list [.name "j", .starred (.name "k")]]] [.node .aug [.name "t"] [], .node .del [.name "t", .other] []],
+     .node .withT [.name "w"] [.node .handler [.name "e"] [.node .ann [.name "v"] []]], .node .defName [.name "g"] [],
+     .node .importN [.name "m"] []] := by
+  simp [Stmt.PlainishL, Stmt.Plainish]
 
 end PsModel.C03
